@@ -6,8 +6,8 @@
 (*   kind    "file" | "dir" | "symfile" (symbolic link to a file)          *)
 (*           | "symdir" (symbolic link to a directory)                     *)
 (*   ext     the extension of its name as Rust's Path::extension sees it:  *)
-(*           "rs", "RS", "rsx", "bak" (x.rs.bak), "txt", "" (none; also a   *)
-(*           hidden file named ".rs")                                      *)
+(*           "rs", "RS", "rsx", "bak" (x.rs.bak), "tmp" (x.rs.tmp), "rs~",   *)
+(*           "txt", "" (none; also a hidden file named ".rs")              *)
 (*   inside  TRUE iff the entry lies below the configured source directory *)
 (*           by its real path (not through a symbolic link)                *)
 (*   depth   nesting below the source directory                            *)
@@ -53,7 +53,7 @@ Expected == {e.id : e \in {x \in layout : InScope(x, EffectiveExts(exts))}}
 NeverLinksOrDirs == \A e \in layout : e.kind # "file" => e.id \notin Expected
 NeverOutside == \A e \in layout : ~e.inside => e.id \notin Expected
 CaseSensitive == \A e \in layout : (e.ext = "RS" /\ "RS" \notin EffectiveExts(exts)) => e.id \notin Expected
-ExactExtension == \A e \in layout : (e.ext \in {"rsx", "bak", ""} /\ e.ext \notin EffectiveExts(exts)) => e.id \notin Expected
+ExactExtension == \A e \in layout : (e.ext \in {"rsx", "bak", "tmp", "rs~", ""} /\ e.ext \notin EffectiveExts(exts)) => e.id \notin Expected
 
 Dump == PrintT("SCOPE|" \o ToJson([layout |-> {e.id : e \in layout}, exts |-> exts, sd |-> sd, inv |-> inv,
                                      expected |-> Expected, lock |-> LockLocation]))
